@@ -6,9 +6,11 @@ from ..runner import Prop
 from .c04 import tup
 
 
-def g_cfg(full, nm, cb, ev_match=True, ev_nomatch=False, direct=True, frag_noscan=False):
-    return ("{| c_full := %s; c_nm := %s; c_cb := %s; c_ev_match := %s; c_ev_nomatch := %s; c_direct := %s; "
-            "c_frag_noscan := %s |}" % tuple(gbool(x) for x in (full, nm, cb, ev_match, ev_nomatch, direct, frag_noscan)))
+def g_cfg(full, nm, cb, ev_match=True, ev_nomatch=False, direct=True, frag_noscan=False, ev_import=False,
+          ev_limit=False):
+    return ("{| c_full := %s; c_nm := %s; c_cb := %s; c_ev_match := %s; c_ev_nomatch := %s; c_ev_import := %s; "
+            "c_ev_limit := %s; c_direct := %s; c_frag_noscan := %s |}"
+            % tuple(gbool(x) for x in (full, nm, cb, ev_match, ev_nomatch, ev_import, ev_limit, direct, frag_noscan)))
 
 
 def g_outcome(rs, out):
@@ -31,6 +33,10 @@ def g_outcome(rs, out):
             evs.append("EvMatch %d" % ruleset.rule_key(rs, e["rule"]["ns"], e["rule"]["name"]))
         elif e["ev"] == "nomatch":
             evs.append("EvNoMatch %d" % ruleset.rule_key(rs, e["rule"]["ns"], e["rule"]["name"]))
+        elif e["ev"] == "import":
+            evs.append("EvImport %d" % ruleset.MODULE_IDS.get(e["module"], 99))
+        elif e["ev"] == "limit":
+            evs.append("EvLimit %d" % (ruleset.rule_key(rs, e["ns"], e["rule"]) * 100 + e["index"]))
     return "(mk_outcome %s %s %s %d)" % (err, glist(rules), glist(evs), out.get("checks", 0) or 0)
 
 
